@@ -40,6 +40,7 @@ PROPS["C13"] = {
         H("k13_1_reader_ops", timeout=300),
         H("k13_2_window_bits", timeout=300),
         H("k13_2_window_u8", timeout=300),
+        H("k13_2_window_ops", timeout=600),
         H("k13_3_close", timeout=300),
         H("k13_4_writer_ops", timeout=900, unwindset=[BITITER_NEXT_REC, WRITE_BIT_REC]),
         H("k13_4_writer_bytes", timeout=900, unwindset=[BITITER_NEXT_REC, WRITE_BIT_REC]),
